@@ -183,23 +183,30 @@ pub mod mstate
 {
     use super::*;
     pub static mut CMD_MODE: CmdMode = CmdMode::Record;
-    pub static mut CAPTURE_KEY: TypeKey = 0;
-    pub static mut CAPTURE_PTR: *mut () = core::ptr::null_mut();
+    /// (non-zero "no capture" value and a non-zero counter base: a zero-initialised `static mut` can share storage with
+    /// the standard library's zero constants under Kani 0.68 - see envstub/crossbeam)
+    pub const NO_CAPTURE: TypeKey = 0x5EED_0000_0000_0400;
+    pub const QUEUED_BASE: usize = 0x5EED_0000_0000_0500;
+    pub static mut CAPTURE_KEY: TypeKey = NO_CAPTURE;
+    pub const NO_PTR: *mut () = 0x5EED_0600 as *mut ();
+    pub static mut CAPTURE_PTR: *mut () = NO_PTR;
     pub static mut DROPPER: fn(ErasedCell) = <() as crate::model::cell::DropList>::drop_cell;
     pub static mut APPLIER: fn(ErasedCommand, &mut World) = <() as ApplyList>::apply_cmd;
     /// number of `Commands::queue` calls so far (any queue, any mode)
-    pub static mut QUEUED: usize = 0;
+    pub static mut QUEUED: usize = QUEUED_BASE;
 }
 
 /// What `Commands::queue` does with a command (verification-only switch; default `Record` = Bevy's behaviour).
 #[derive(Copy, Clone, Eq, PartialEq, Debug)]
+#[repr(u8)]
 pub enum CmdMode
 {
     /// the command is appended to the queue and applied when the queue is flushed (E1)
-    Record,
+    /// (explicit non-zero discriminants: the value lives in a `static mut`, see `mstate`)
+    Record = 0x5A,
     /// the command is applied at once, statically dispatched (used where only the *effect* of a queued command is
     /// the subject and its type cannot be named, e.g. the closures queued by `commands.syscall(..)`)
-    Immediate,
+    Immediate = 0xA5,
 }
 
 /// Capacities of the model's tables.  Fixed-size inline arrays instead of `Vec`s: CBMC keeps constant indices
@@ -502,14 +509,14 @@ impl World
     pub fn m_apply_via_fn_pointer(&mut self) { unsafe { mstate::APPLIER = apply_via_fn_pointer; } }
     pub fn m_set_cmd_mode(&mut self, mode: CmdMode) { unsafe { mstate::CMD_MODE = mode; } }
     /// number of `Commands::queue` calls so far (any queue of this harness, any mode)
-    pub fn m_queued(&self) -> usize { unsafe { mstate::QUEUED } }
+    pub fn m_queued(&self) -> usize { unsafe { mstate::QUEUED - mstate::QUEUED_BASE } }
     /// verification-only: commands of type `C` queued through any `Commands` of this world are appended to `buf`
     /// (typed, not applied) until `m_capture_end`
     pub fn m_capture<C: Command>(&mut self, buf: &mut Vec<C>)
     {
         unsafe { mstate::CAPTURE_KEY = type_key::<C>(); mstate::CAPTURE_PTR = buf as *mut Vec<C> as *mut (); }
     }
-    pub fn m_capture_end(&mut self) { unsafe { mstate::CAPTURE_KEY = 0; mstate::CAPTURE_PTR = core::ptr::null_mut(); } }
+    pub fn m_capture_end(&mut self) { unsafe { mstate::CAPTURE_KEY = mstate::NO_CAPTURE; mstate::CAPTURE_PTR = mstate::NO_PTR; } }
 
     pub fn as_unsafe_world_cell(&mut self) -> UnsafeWorldCell<'_> { UnsafeWorldCell(self as *mut World, PhantomData) }
 
@@ -640,6 +647,15 @@ impl World
     pub fn despawn(&mut self, entity: Entity) -> bool
     {
         self.flush();
+        let done = self.m_despawn_noflush(entity);
+        if done { self.flush(); }
+        done
+    }
+
+    /// verification-only: `despawn` without the surrounding flushes (for harness-defined commands whose subject is not
+    /// the flush order; avoids the despawn -> flush -> apply -> despawn recursion CBMC would unwind to the bound)
+    pub fn m_despawn_noflush(&mut self, entity: Entity) -> bool
+    {
         if !self.m_alive(entity) { return false; }
         let index = entity.index() as usize;
         {
@@ -662,7 +678,6 @@ impl World
                 (unsafe { mstate::DROPPER })(cell);
             }
         });
-        self.flush();
         true
     }
 
